@@ -1,3 +1,5 @@
+//go:build verif_c17
+
 package main
 
 // C17 — style registry (NewStyle / GetStyle) and three-level style resolution.
